@@ -85,6 +85,25 @@ Proof.
   pose proof (len_ser_cas_info c H2). specialize (IH H3). lia.
 Qed.
 
+(* ---- the chunk table is complete: every chunk of every block has its entry ---- *)
+Lemma chunk_tbl_of_complete c : forall chs idx i0 j ch, nth_error chs j = Some ch ->
+  In (truncate_hash (ce_hash ch), (idx, i0 + N.of_nat j)) (chunk_tbl_of c chs idx i0).
+Proof.
+  induction chs as [|x r IH]; intros idx i0 j ch H; [destruct j; discriminate|]. cbn [chunk_tbl_of]. destruct j as [|j]; cbn [nth_error] in H.
+  - injection H as ->. left. f_equal. f_equal. lia.
+  - right. replace (i0 + N.of_nat (S j)) with ((i0 + 1) + N.of_nat j) by lia. apply IH. exact H.
+Qed.
+Lemma chunk_tbl_complete : forall pre c post idx0 j ch, nth_error (ci_chunks c) j = Some ch ->
+  In (truncate_hash (ce_hash ch), (idx0 + crecs pre, N.of_nat j)) (chunk_lookup_tbl (pre ++ c :: post) idx0).
+Proof.
+  induction pre as [|p pre IH]; intros c post idx0 j ch H; cbn [app chunk_lookup_tbl].
+  - apply in_or_app. left. cbn [crecs fold_right]. replace (idx0 + 0) with idx0 by lia.
+    pose proof (chunk_tbl_of_complete c (ci_chunks c) idx0 0 j ch H) as G. replace (0 + N.of_nat j) with (N.of_nat j) in G by lia. exact G.
+  - apply in_or_app. right. cbn [crecs fold_right]. fold (crecs pre).
+    replace (idx0 + (1 + N.of_nat (length (ci_chunks p)) + crecs pre)) with ((idx0 + 1 + N.of_nat (length (ci_chunks p))) + crecs pre) by lia.
+    apply IH. exact H.
+Qed.
+
 Section DedupWhole.
   Variables (files : list file_info) (cass : list cas_info) (key : hash) (created expiry : N).
   Hypothesis Hf : Forall wf_file files.
@@ -211,4 +230,87 @@ Section DedupWhole.
     unfold d_ctbl in Hf2. apply (proj1 (sort_by_key_in _ _)) in Hf2. destruct (chunk_tbl_entry _ _ _ _ _ Hf2) as (pre & c & post & E & Ea & Eb & _).
     exists pre, c, post. cbn [fst snd]. repeat split; [exact E | lia | exact Eb].
   Qed.
+  (* ---- completeness: a chunk the shard records is found ---- *)
+  Lemma scan_cands_some qs : qs <> [] -> forall l, Forall CandOk l -> forall e, In e l ->
+    (exists a, dedup_direct d_bs d_ft qs (fst e) (snd e) = Found (Some a)) -> exists a', scan_cands d_bs d_ft qs l = Found (Some a').
+  Proof.
+    intros Hq. induction l as [|[ci off] r IH]; intros Hl e He [a Ha]; [destruct He|]. cbn [scan_cands].
+    inversion Hl as [|? ? (pre & c & post & E & E1 & E2) Hr]; subst. cbn [fst snd] in E1, E2. subst ci.
+    assert (Hw : wf_cas c) by (rewrite E in Hc; apply Forall_app in Hc as [_ Hc']; inversion Hc'; assumption).
+    destruct (d_block_at pre c post E) as [rest Hsk].
+    pose proof (dedup_direct_is_rec d_bs d_ft qs (crecs pre) off c rest Hw Hq Hsk E2) as Hd. rewrite Hd.
+    destruct (direct_rec (ft_key d_ft) c qs off) as [a0|] eqn:Ed; [exists a0; reflexivity|].
+    destruct He as [<-|He]; [cbn [fst snd] in Ha; rewrite Hd in Ha; discriminate|].
+    apply (IH Hr e He). exists a. exact Ha.
+  Qed.
+
+  Lemma direct_rec_some c q0 qr off ch : nth_error (ci_chunks c) (N.to_nat off) = Some ch -> ce_hash ch = keyed key q0 ->
+    exists a, direct_rec key c (q0 :: qr) off = Some a.
+  Proof.
+    intros Hn Hh. unfold direct_rec.
+    assert (Hs : exists tl, skipn (N.to_nat off) (ci_chunks c) = ch :: tl).
+    { clear -Hn. revert Hn. generalize (N.to_nat off) as m. generalize (ci_chunks c) as l. induction l as [|x l IH]; intros [|m] H; cbn [nth_error] in H; try discriminate.
+      - injection H as ->. exists l. reflexivity.
+      - cbn [skipn]. apply IH. exact H. }
+    destruct Hs as [tl ->]. cbn [run_len]. rewrite Hh, bytes_eqb_refl. eexists. reflexivity.
+  Qed.
+
+  (* C05/C11 on disk, the other direction: a chunk recorded in one of the shard's blocks is found by the chunk lookup of the
+     serialized shard -- for every probe function -- provided no more than eight table entries share its truncated hash
+     (the lookup examines at most eight candidates).  With the truthfulness above: the answer is a real run that starts
+     with the queried chunk. *)
+  Theorem d_dedup_complete probe q0 qr pre c post j ch : cass = pre ++ c :: post -> nth_error (ci_chunks c) j = Some ch ->
+    ce_hash ch = keyed key q0 -> (length (matching (truncate_hash (keyed key q0)) d_ctbl) <= 8)%nat ->
+    exists n s, dedup_query probe d_bs d_ft (q0 :: qr) = Found (Some (n, s)) /\ exists c', In c' cass /\ truthful key c' (q0 :: qr) n s.
+  Proof.
+    intros E Hn Hh Hfew.
+    assert (Hent : In (truncate_hash (keyed key q0), (crecs pre, N.of_nat j)) d_ctbl).
+    { unfold d_ctbl. apply (proj2 (sort_by_key_in _ _)). rewrite E. rewrite <- Hh.
+      pose proof (chunk_tbl_complete pre c post 0 j ch Hn) as G. replace (0 + crecs pre) with (crecs pre) in G by lia. exact G. }
+    assert (Hq : exists n s, dedup_query probe d_bs d_ft (q0 :: qr) = Found (Some (n, s))).
+    { rewrite dedup_query_unfold.
+      assert (Hnum : ft_chunk_lookup_num d_ft =? 0 = false).
+      { cbn [d_ft w_ft ft_chunk_lookup_num]. apply N.eqb_neq. destruct d_ctbl; [destruct Hent | cbn [length]; lia]. }
+      rewrite Hnum, d_read_chunk_tbl. change (ft_key d_ft) with key.
+      destruct (search_exact probe d_ctbl (truncate_hash (keyed key q0)) (sort_by_key_sorted _) 8 ltac:(lia)) as (l & Hs & Hp). rewrite Hs.
+      assert (Hall : firstn 8 l = l) by (apply firstn_all2; rewrite (Permutation_length Hp); exact Hfew). rewrite Hall.
+      assert (Hin : In (crecs pre, N.of_nat j) l).
+      { eapply Permutation_in; [apply Permutation_sym; exact Hp|]. unfold matching. apply in_map_iff. exists (truncate_hash (keyed key q0), (crecs pre, N.of_nat j)).
+        split; [reflexivity|]. apply filter_In. split; [exact Hent|]. unfold eqk. cbn [fst]. apply N.eqb_refl. }
+      assert (Hok : Forall CandOk l).
+      { apply Forall_forall. intros [ci off] Hin0. assert (Hin2 : In (ci, off) (matching (truncate_hash (keyed key q0)) d_ctbl)) by (eapply Permutation_in; [exact Hp | exact Hin0]).
+        unfold matching in Hin2. apply in_map_iff in Hin2 as ([k v] & Ev & Hf2). cbn [snd] in Ev. subst v. apply filter_In in Hf2 as [Hf2 _].
+        unfold d_ctbl in Hf2. apply (proj1 (sort_by_key_in _ _)) in Hf2. destruct (chunk_tbl_entry _ _ _ _ _ Hf2) as (pre' & c' & post' & E' & Ea & Eb & _).
+        exists pre', c', post'. cbn [fst snd]. repeat split; [exact E' | lia | exact Eb]. }
+      destruct (scan_cands_some (q0 :: qr) ltac:(discriminate) l Hok (crecs pre, N.of_nat j) Hin) as [[n s] Hres].
+      - cbn [fst snd].
+        assert (Hw : wf_cas c) by (rewrite E in Hc; apply Forall_app in Hc as [_ Hc']; inversion Hc'; assumption).
+        destruct (d_block_at pre c post E) as [rest Hsk].
+        assert (Hj : N.of_nat j < N.of_nat (length (ci_chunks c))) by (assert (j < length (ci_chunks c))%nat by (apply nth_error_Some; congruence); lia).
+        rewrite (dedup_direct_is_rec d_bs d_ft (q0 :: qr) (crecs pre) (N.of_nat j) c rest Hw ltac:(discriminate) Hsk Hj). change (ft_key d_ft) with key.
+        destruct (direct_rec_some c q0 qr (N.of_nat j) ch) as [a Ha]; [replace (N.to_nat (N.of_nat j)) with j by lia; exact Hn | exact Hh|]. exists a. rewrite Ha. reflexivity.
+      - exists n, s. exact Hres. }
+    destruct Hq as (n & s & Hres). exists n, s. split; [exact Hres|]. apply (d_dedup_truthful probe (q0 :: qr) n s Hres).
+  Qed.
 End DedupWhole.
+
+(* ---- non-vacuity: a shard of two blocks; the second chunk of the second block is looked up ---- *)
+Definition dx_ch (b l : N) : chunk_ent := mkCE (repeat b 32%nat) l 0 0.
+Definition dx_c1 : cas_info := mkCI (repeat 7 32%nat) 0 30 30 [dx_ch 11 10; dx_ch 12 20].
+Definition dx_c2 : cas_info := mkCI (repeat 8 32%nat) 0 70 70 [dx_ch 13 30; dx_ch 14 40].
+Lemma dx_wf : Forall wf_cas [dx_c1; dx_c2].
+Proof.
+  assert (W : forall b l, b < 256 -> l < 4294967296 -> wf_chunk (dx_ch b l)).
+  { intros b l Hb Hl. unfold wf_chunk, dx_ch, is_hash, is_u32, is_u64. cbn [ce_hash ce_bytes ce_start ce_unused]. rewrite repeat_length.
+    repeat split; try lia; try (apply Forall_forall; intros x Hx; apply repeat_spec in Hx; subst x; exact Hb). }
+  repeat constructor; try (apply W; lia); unfold is_hash, is_u32; cbn; try lia; try reflexivity; repeat constructor; lia.
+Qed.
+Example dx_found :
+  exists n s, dedup_query probe_exact (d_bs [] [dx_c1; dx_c2] zero_hash 0 0) (d_ft [] [dx_c1; dx_c2] zero_hash 0 0) [repeat 14 32%nat; repeat 99 32%nat] = Found (Some (n, s))
+              /\ exists c', In c' [dx_c1; dx_c2] /\ truthful zero_hash c' [repeat 14 32%nat; repeat 99 32%nat] n s.
+Proof.
+  apply (d_dedup_complete [] [dx_c1; dx_c2] zero_hash 0 0) with (pre := [dx_c1]) (c := dx_c2) (post := []) (j := 1%nat) (ch := dx_ch 14 40);
+    try exact dx_wf; try (constructor; fail); try reflexivity; try (unfold is_u64; vm_compute; reflexivity).
+  - repeat constructor; cbn; lia.
+  - vm_compute. lia.
+Qed.
